@@ -450,7 +450,11 @@ pub async fn gen_catchup(sim: &mut Sim, rng: &mut Prng, stats: &mut Stats, name:
             55..=59 => sim.eval(n),
             _ => {
                 // catch-up with a supplied state that may or may not be consistent
-                let member = rng.pick(&ids).clone();
+                // never the node's own id: the owner is the single writer of its namespace
+                let mut member = rng.pick(&ids).clone();
+                if member == ids[n] {
+                    member = ids[1 - n].clone();
+                }
                 let nk = rng.below(4) as usize;
                 let mut kvs = Vec::new();
                 let consistent = rng.chance(1, 2);
